@@ -500,16 +500,11 @@ class Interp:
                     b = {n["v"]: ch, "forloop": {"counter": str(i + 1), "counter0": str(i), "first": i == 0, "last": i == len(seq) - 1, "parentloop": parentloop}}
                     layer = Layer(b, "for")
                     b2 = dict(between)
-                    for k_ in b:
-                        if k_ in b2 and k_ != "forloop":
-                            b[k_] = WILD  # same name bound twice between tag and fill: winner not specified
-                    b2.update(b)
+                    b2.update(b)  # a name bound twice between tag and fill: the innermost binding wins (lexical scoping)
                     self.collect_fills(n["c"], env + [Layer(dict(b), "for")], b2, acc, owner)
             elif t == "with":
                 b = {n["n"]: self.expr(env, n["e"])}
                 b2 = dict(between)
-                if n["n"] in b2:
-                    b[n["n"]] = WILD
                 b2.update(b)
                 self.collect_fills(n["c"], env + [Layer(b, "with")], b2, acc, owner)
             elif t == "text":
